@@ -33,7 +33,7 @@ pub enum Case {
 pub struct Pipeline;
 
 pub const POOL: &[&str] = &[
-    "0/0", "inf", "-inf", "0", "-0", "9007199254740992", "1e30", "-1e30", "1e15", "0.5", "-1.5", "7", "1", "2", "100", "-1",
+    "0/0", "inf", "-inf", "0", "-0", "9007199254740992", "999999999999999.9", "1e30", "-1e30", "1e15", "0.5", "-1.5", "7", "1", "2", "100", "-1",
     "\"\"", "\"abc\"", "\"é\"", "\"😀x\"", "\"12.5\"", "\"1e999\"", "\"meters\"", "\"c\"", "\"{} {}\"", "\",\"", "\"{\"", "\"{0} {1} {}\"", "\"{{}} }\"", "\"{:>5} {x}\"",
     "true", "false", "null",
     "[]", "[1, 2, 3]", "[3, 0/0, 1]", "[[1, 2], [3]]", "[\"b\", \"a\", \"é\"]", "[1e308, 1e308, -1e308]",
